@@ -170,6 +170,12 @@ func checkChain(c chainCase) (o pbt.Outcome, err error) {
 	if hostile {
 		o.Class("a name of the hostile dictionary")
 	}
+	if hasNonASCII(c.Rows) {
+		o.Class("a name with multi-byte characters")
+		if c.Phylip == "strict" && distinct["phylip"] {
+			o.Class("a name with multi-byte characters through strict Phylip")
+		}
+	}
 	if caseVariantNames(c.Rows) {
 		o.Class("two names differing by case only")
 	}
@@ -204,15 +210,18 @@ func TestReformatChain(t *testing.T) {
 // ---- seqboot + compute distance == distboot ---------------------------------------------------
 
 type bootCase struct {
-	Rows    []gen.Row `json:"rows"`
-	N       int       `json:"n"`
-	Seed    int64     `json:"seed"`
-	Model   string    `json:"model"`
-	RmGaps  bool      `json:"rmgaps"`
-	Alpha   string    `json:"alpha"`   // "" = no gamma
-	Frac    string    `json:"frac"`    // "" = full bootstrap
-	Gz      bool      `json:"gz"`      // the seqboot side writes gzipped replicates (--gz)
-	Threads []int     `json:"threads"` // seqboot, compute distance, distboot
+	Rows   []gen.Row `json:"rows"`
+	N      int       `json:"n"`
+	Seed   int64     `json:"seed"`
+	Model  string    `json:"model"`
+	RmGaps bool      `json:"rmgaps"`
+	Alpha  string    `json:"alpha"` // "" = no gamma
+	Frac   string    `json:"frac"`  // "" = full bootstrap
+	Gz     bool      `json:"gz"`    // the seqboot side writes gzipped replicates (--gz)
+	// Multi: the replicates are written in Phylip (-p), put one after the other in one file and
+	// given to a single compute distance execution (a multi-alignment input)
+	Multi   bool  `json:"multi"`
+	Threads []int `json:"threads"` // seqboot, compute distance, distboot
 }
 
 func genBoot(t *rapid.T) bootCase {
@@ -225,6 +234,7 @@ func genBoot(t *rapid.T) bootCase {
 	c.Alpha = rapid.SampledFrom([]string{"", "", "0.5", "1", "2.5"}).Draw(t, "alpha")
 	c.Frac = rapid.SampledFrom([]string{"", "", "0.5", "0.9"}).Draw(t, "frac")
 	c.Gz = rapid.Bool().Draw(t, "gz")
+	c.Multi = rapid.IntRange(0, 2).Draw(t, "multi") == 0
 	for i := 0; i < 3; i++ {
 		c.Threads = append(c.Threads, rapid.SampledFrom([]int{1, 2, 4, 16}).Draw(t, "threads"))
 	}
@@ -248,6 +258,11 @@ func checkBoot(c bootCase) (o pbt.Outcome, err error) {
 	}
 	// 1. bootstrap alignments
 	sbArgs := append(append([]string{"build", "seqboot", "-i", in, "-o", "boot"}, common...), "-t", fmt.Sprint(c.Threads[0]))
+	ext := ".fa"
+	if c.Multi {
+		sbArgs = append(append([]string{"build", "seqboot", "-p", "-i", cli.TempFile(dir, ".phy", phylip(c.Rows)), "-o", "boot"}, common...), "-t", fmt.Sprint(c.Threads[0]))
+		ext = ".ph"
+	}
 	if c.Gz {
 		sbArgs = append(sbArgs, "--gz")
 	}
@@ -269,10 +284,10 @@ func checkBoot(c bootCase) (o pbt.Outcome, err error) {
 		return o, fmt.Errorf("goalign %s wrote %d files for -n %d: %v", strings.Join(sbArgs, " "), nfiles, c.N, fileNames(sb.Files))
 	}
 	// 2. distances of each of them, in order
-	var cat strings.Builder
+	var cat, multi strings.Builder
 	failed := false
 	for i := 0; i < c.N; i++ {
-		want := fmt.Sprintf("boot%d.fa", i)
+		want := fmt.Sprintf("boot%d%s", i, ext)
 		if c.Gz {
 			// decompressed by the harness's own gzip reader (see execute)
 			want += ".gz [decompressed]"
@@ -281,8 +296,25 @@ func checkBoot(c bootCase) (o pbt.Outcome, err error) {
 		if !ok {
 			return o, fmt.Errorf("goalign %s: no file %q among %v", strings.Join(sbArgs, " "), want, fileNames(sb.Files))
 		}
+		if c.Multi {
+			multi.WriteString(content)
+			continue
+		}
 		f := cli.TempFile(dir, ".fa", content)
 		args := append(append([]string{"compute", "distance", "-i", f}, dist...), "-t", fmt.Sprint(c.Threads[1]))
+		r := cli.Run("", args...)
+		if r.TimedOut {
+			o.Skip = true
+			return o, nil
+		}
+		if r.Exit != 0 {
+			failed = true
+		}
+		cat.WriteString(r.Stdout)
+	}
+	if c.Multi {
+		// one execution on the file holding the N replicates
+		args := append(append([]string{"compute", "distance", "-p", "-i", cli.TempFile(dir, ".phy", multi.String())}, dist...), "-t", fmt.Sprint(c.Threads[1]))
 		r := cli.Run("", args...)
 		if r.TimedOut {
 			o.Skip = true
@@ -320,6 +352,10 @@ func checkBoot(c bootCase) (o pbt.Outcome, err error) {
 	o.Class("n>1=%v", c.N > 1)
 	o.Class("partial=%v", c.Frac != "")
 	o.Class("seqboot --gz=%v", c.Gz)
+	o.Class("replicates in one multi-alignment file=%v", c.Multi)
+	if c.Multi && c.Threads[1] > 1 && c.N > 1 {
+		o.Class("multi-alignment compute distance with -t > 1")
+	}
 	o.Class("gamma=%v", c.Alpha != "")
 	if c.Threads[0] != c.Threads[2] {
 		o.Class("different thread counts")
